@@ -696,6 +696,10 @@ def coerce(v, kind):
             return v
     elif kind is Str or kind is Bytes:
         if isinstance(v, VStr):
+            if kind is Bytes and not v.is_bytes and not (z3.is_string_value(v.t) and v.t.as_string() == ''):
+                # a text value stored where the model keeps bytes (e.g. a str payload queued in an endpoint's byte buffer): the slot
+                # holds its WIRE view, the (uninterpreted) encoding of the text; sound for conservation arguments, which compare bytes
+                return VStr(fn('py_encode', z3.StringSort(), z3.StringSort())(v.t), True)
             return v
     elif kind is Any:
         return VAny(any_inject(v))
